@@ -1271,7 +1271,7 @@ func (app *App) performSwitchover(clusterState map[string]*nodestate.NodeState, 
 	// set read only everywhere (all HA-nodes) and stop replication
 	app.logger.Info().Msg("switchover: phase 1: enter read only")
 	errs := util.RunParallel(func(host string) error {
-		if !clusterState[host].PingOk {
+		if clusterState[host] == nil || !clusterState[host].PingOk {
 			return fmt.Errorf("switchover: failed to ping host %s", host)
 		}
 		node := app.cluster.Get(host)
@@ -1326,7 +1326,7 @@ func (app *App) performSwitchover(clusterState map[string]*nodestate.NodeState, 
 	}
 
 	errs2 := util.RunParallel(func(host string) error {
-		if !clusterState[host].PingOk {
+		if clusterState[host] == nil || !clusterState[host].PingOk {
 			errMessage := fmt.Sprintf("switchover: failed to ping host %s", host)
 			app.logger.Warn().Msg(errMessage)
 			return fmt.Errorf("%s", errMessage)
@@ -1452,7 +1452,7 @@ func (app *App) performSwitchover(clusterState map[string]*nodestate.NodeState, 
 		return fmt.Errorf("got error on setting new master %s online %w", newMaster, err)
 	}
 	errs = util.RunParallel(func(host string) error {
-		if host == newMaster || !clusterState[host].PingOk {
+		if host == newMaster || clusterState[host] == nil || !clusterState[host].PingOk {
 			return nil
 		}
 		err := app.performChangeMaster(host, newMaster)
@@ -2346,7 +2346,10 @@ func (app *App) stopActiveNodeOptimization(oldMaster string, activeNodes []strin
 
 	var nodes []*mysql.Node
 	for _, hostname := range activeNodes {
-		nodes = append(nodes, app.cluster.Get(hostname))
+		// active nodes come from dcs and may name a host that is not registered any more
+		if node := app.cluster.Get(hostname); node != nil {
+			nodes = append(nodes, node)
+		}
 	}
 
 	return app.optController.DisableAll(
